@@ -248,14 +248,17 @@ class SpansSetOps(_Spans):
         x, y = self.mk(I, a), self.mk(I, a, self.others(a))
         r = I.call_value(I.get_attr(x, a["op"]), [y], {})
         out = Outcome("return", None)
-        out.post = {"spans": list(r.fields["_spans"]), "left_after": list(x.fields["_spans"]), "right_after": list(y.fields["_spans"])}
+        out.post = {"spans": list(r.fields["_spans"]), "left_after": list(x.fields["_spans"]), "right_after": list(y.fields["_spans"]),
+                    "fresh": r is not x and r is not y and r.fields["_spans"] is not x.fields["_spans"] and r.fields["_spans"] is not y.fields["_spans"]}
         return out
 
     def native(self, a):
         x, y = self.mk_native(a), self.mk_native(a, self.others(a))
         out = native_outcome(lambda: getattr(x, a["op"])(y))
         if out.kind == "return":
-            out.post = {"spans": list(out.value._spans), "left_after": list(x._spans), "right_after": list(y._spans)}
+            r = out.value
+            out.post = {"spans": list(out.value._spans), "left_after": list(x._spans), "right_after": list(y._spans),
+                        "fresh": r is not x and r is not y and r._spans is not x._spans and r._spans is not y._spans}
             out.value = None
         return out
 
@@ -267,6 +270,7 @@ class SpansSetOps(_Spans):
         from pyvc.models import values_equal
         return [("representation-invariant-kept", rep(new)),
                 ("result-is-the-set-operation", z3.ForAll([x], member(new, x) == want)),
+                ("the-result-is-a-new-object-that-shares-no-span-list-with-an-operand", z3.BoolVal(bool(out.post["fresh"]))),
                 ("operands-unchanged", z3.And(z3.BoolVal(len(out.post["left_after"]) == len(A) and len(out.post["right_after"]) == len(B)),
                                              z3.ForAll([x], z3.And(member(out.post["left_after"], x) == member(A, x), member(out.post["right_after"], x) == member(B, x)))))]
 
@@ -461,8 +465,64 @@ class DataSpansLen(_DataSpans):
         return [("canary", Z(out.value) == 0)]
 
 
+class SpansInPlace(_Spans):
+    """s += t and s -= t, including t being s itself (s -= s must leave the empty set, s += s must leave s unchanged)"""
+    method = "__isub__"
+    cross_check = 60
+
+    def inputs(self):
+        d = self.span_inputs("s")
+        d.update(self.span_inputs("t", 2))
+        d.update({"n": ChoiceK(range(self.maxspans + 1)), "m": ChoiceK([0, 1, 2]), "op": ChoiceK(["__iadd__", "__isub__"]), "other": ChoiceK(["distinct", "itself"])})
+        return d
+
+    def all_cases(self):
+        cs = []
+        for n in range(self.maxspans + 1):
+            for op in ("__iadd__", "__isub__"):
+                cs.append({"n": n, "m": 0, "op": op, "other": "itself"})
+                for m in (0, 1, 2):
+                    cs.append({"n": n, "m": m, "op": op, "other": "distinct"})
+        return cs
+
+    def others(self, a):
+        return [(a["t%d" % i], a["tl%d" % i]) for i in range(a["m"])]
+
+    def requires(self, I, a):
+        return z3.And(rep(self.spans(a)), rep(self.others(a)))
+
+    def run(self, I, a):
+        x = self.mk(I, a)
+        y = x if a["other"] == "itself" else self.mk(I, a, self.others(a))
+        r = I.call_value(I.get_attr(x, a["op"]), [y], {})
+        out = Outcome("return", None)
+        out.post = {"spans": list(x.fields["_spans"]), "same_object": r is x, "right_after": list(y.fields["_spans"])}
+        return out
+
+    def native(self, a):
+        x = self.mk_native(a)
+        y = x if a["other"] == "itself" else self.mk_native(a, self.others(a))
+        out = native_outcome(lambda: getattr(x, a["op"])(y))
+        if out.kind == "return":
+            out.post = {"spans": list(x._spans), "same_object": out.value is x, "right_after": list(y._spans)}
+            out.value = None
+        return out
+
+    def ensures(self, I, a, out):
+        new, A = out.post["spans"], self.spans(a)
+        B = A if a["other"] == "itself" else self.others(a)
+        x = z3.Int("x")
+        want = z3.Or(member(A, x), member(B, x)) if a["op"] == "__iadd__" else z3.And(member(A, x), z3.Not(member(B, x)))
+        g = [("representation-invariant-kept", rep(new)),
+             ("the-left-operand-becomes-the-set-operation-also-when-the-right-one-is-the-same-object", z3.ForAll([x], member(new, x) == want)),
+             ("the-operator-returns-its-left-operand", z3.BoolVal(bool(out.post["same_object"])))]
+        if a["other"] == "distinct":
+            g.append(("a-distinct-right-operand-is-unchanged", z3.And(z3.BoolVal(len(out.post["right_after"]) == len(B)), z3.ForAll([x], member(out.post["right_after"], x) == member(B, x)))))
+        return g
+
+
 def contracts(tier):
-    cs = [Overlap(), Adjacent(), DataSpansAdd(), DataSpansRemove(), DataSpansGet(), DataSpansLen(), SpansAdd(), SpansRemove(), SpansContains(), SpansLen(), SpansSetOps()]
+    cs = [Overlap(), Adjacent(), DataSpansAdd(), DataSpansRemove(), DataSpansGet(), DataSpansLen(), SpansAdd(), SpansRemove(), SpansContains(), SpansLen(), SpansSetOps(), SpansInPlace()]
     if tier == "thorough":
         for c in cs[2:]:
             c.maxspans = 3
